@@ -25,3 +25,12 @@ P("C17", "mirfacts+rules",
   "propagated to main's exit(1), and the record is built from the values handed to the generator.  Exhaustive over the program "
   "text (all paths of the CFG, all call sites), not sampled; crash atomicity is not claimed.",
   "trusts rustc's MIR/callee resolution for the pinned nightly and the FS_MUTATORS table (cross-checked by C16's enumeration)")
+
+
+P("C16", "mirfacts+rules",
+  "static analysis: who-may-call enumeration (CALLS) + interprocedural path-provenance/shape analysis (PATHSHAPE) + literal-table/guard checks (TABLE, CTRL) over MIR",
+  "Enumerates every std::fs mutator call site in the resolved call graph of lib+bin; for each reachable one computes the provenance of "
+  "the path operand through fields, constructors, all callers and decoded format! templates, and requires OutDir ⊕ reserved literal, "
+  "OutDir itself, a read_dir(OutDir) entry guarded by is_file ∧ is_generated_file ∧ ¬current, or the CLI-given config path; checks the "
+  "deletion predicate's literal table against the statement's reserved names.  Exhaustive over call sites and callers; symlinks/OS path resolution not claimed.",
+  "trusts the std::fs mutator table and rustc's callee resolution; GenerateConfig.output_path is taken as the output directory by definition")
